@@ -2,6 +2,7 @@
 from __future__ import annotations
 
 import ast
+import re
 import string
 from typing import Dict, List, Optional, Set, Tuple
 
@@ -67,40 +68,7 @@ def _name_list(fn, e):
     return None, "", "list built in an unrecognised way"
 
 
-def rule_submodule_contract(ctx, rep: Report, rid="Y2"):
-    prog = ctx.prog
-    ci = prog.cls("PybindWrapper")
-    wrap = prog.method("PybindWrapper", "wrap")
-    sub = prog.method("PybindWrapper", "wrap_submodule")
-    wf = prog.method("PybindWrapper", "wrap_file")
-    loc = f"{ci.mod.rel}:{wf.lineno}"
-    # 1. the same derivation of the initialiser's name on both sides
-    src_param = func_params(sub)[1]
-    sub_call = next((c for c in walk_no_nested(sub) if isinstance(c, ast.Call) and unparse(c.func) == "self.wrap_file"), None)
-    if sub_call is None:
-        raise AnalysisError("wrap_submodule: call to wrap_file not found")
-    b = bind_call(wf, sub_call, drop_self=True)
-    sub_name = unparse(inline_locals(sub, b["module_name"])) if "module_name" in b else None
-    main_call = next((c for c in walk_no_nested(wrap) if isinstance(c, ast.Call) and unparse(c.func) == "self.wrap_file"), None)
-    mb = bind_call(wf, main_call, drop_self=True) if main_call else {}
-    names_e = mb.get("submodules")
-    elt_norm, it_txt, how = _name_list(wrap, names_e)
-    norm_sub = (sub_name or "").replace(src_param, "_SRC")
-    rep.add(rid, "initialiser name:main file and submodule derive it from the source path the same way",
-            elt_norm == norm_sub and "stem" in norm_sub, f"main: {elt_norm} ({how}), submodule: {norm_sub}", loc)
-    srcs = func_params(wrap)[1]
-    popped = any(isinstance(c, ast.Call) and unparse(c.func) == f"{srcs}.pop" and [unparse(a) for a in c.args] == ["0"] for c in walk_no_nested(wrap))
-    rest_names = {st.targets[0].elts[1].value.id for st in walk_no_nested(wrap) if isinstance(st, ast.Assign) and isinstance(st.targets[0], (ast.Tuple, ast.List))
-                  and len(st.targets[0].elts) == 2 and isinstance(st.targets[0].elts[1], ast.Starred) and isinstance(st.targets[0].elts[1].value, ast.Name)
-                  and unparse(st.value) == srcs}
-    it_ok = it_txt in (f"{srcs}[1:]", f"list({srcs}[1:])", f"tuple({srcs}[1:])") or (popped and it_txt == srcs) or it_txt in rest_names
-    rep.add(rid, "main file:one initialiser per additional file, in order", it_ok and "re-ordered" not in how and "filtered" not in how,
-            f"names computed over `{it_txt}` ({how}): one initialiser has to be declared and called for *every* additional file, in the order the files "
-            f"were given - a file that is left out (by its suffix, its content, ...) is still wrapped as a submodule, its initialiser is defined but never "
-            f"called, and its classes are missing from the imported module; pybind11 registration is order-dependent (a base class before the classes "
-            f"derived from it)", f"{ci.mod.rel}:{wrap.lineno}")
-    rep.add(rid, "main file:the submodule list reaches wrap_file", names_e is not None and elt_norm is not None,
-            f"submodules={unparse(names_e) if names_e is not None else None}", f"{ci.mod.rel}:{wrap.lineno}")
+def _submodule_contract_rest(ctx, rep, rid, prog, ci, wrap, wf, loc):
     # 1b. what a file contributes besides the module definition does not depend on whether it is the main file:
     #     only module_def / submodules / submodules_init may be computed under a test of the submodule list
     sp = "submodules" if "submodules" in func_params(wf) else None
@@ -180,6 +148,52 @@ def rule_submodule_contract(ctx, rep: Report, rid="Y2"):
     tests = [unparse(i.test) for i in walk_no_nested(wf) if isinstance(i, ast.If) and "submodules" in unparse(i.test)]
     rep.add(rid, "wrap_file:main-module form iff a submodule list is given", tests == ["submodules is not None"], f"{tests}", loc,
             nontrivial=False)
+
+
+
+def rule_submodule_contract(ctx, rep: Report, rid="Y2"):
+    prog = ctx.prog
+    ci = prog.cls("PybindWrapper")
+    wrap = prog.method("PybindWrapper", "wrap")
+    sub = prog.method("PybindWrapper", "wrap_submodule")
+    wf = prog.method("PybindWrapper", "wrap_file")
+    loc = f"{ci.mod.rel}:{wf.lineno}"
+    # 1. the same derivation of the initialiser's name on both sides
+    src_param = func_params(sub)[1]
+    sub_call = next((c for c in walk_no_nested(sub) if isinstance(c, ast.Call) and unparse(c.func) == "self.wrap_file"), None)
+    if sub_call is None:
+        raise AnalysisError("wrap_submodule: call to wrap_file not found")
+    b = bind_call(wf, sub_call, drop_self=True)
+    sub_name = unparse(inline_locals(sub, b["module_name"])) if "module_name" in b else None
+    main_call = next((c for c in walk_no_nested(wrap) if isinstance(c, ast.Call) and unparse(c.func) == "self.wrap_file"), None)
+    mb = bind_call(wf, main_call, drop_self=True) if main_call else {}
+    names_e = mb.get("submodules")
+    elt_norm, it_txt, how = _name_list(wrap, names_e)
+    norm_sub = (sub_name or "").replace(src_param, "_SRC")
+    probs_, why_ = _initialisers_by_evaluation(ctx)
+    if probs_ is not None:
+        # decided by running the three name derivations on a sample list of files (stems ending in `i`, nested folders)
+        rep.add(rid, "initialiser name:one initialiser per additional file, declared and called by the main file under the name the file defines, in order",
+                not probs_, f"{probs_[:2]}: the parts do not link (an initialiser declared under one name and defined under another is an undefined symbol "
+                f"at import), or a file's classes are missing from the module", loc)
+        _submodule_contract_rest(ctx, rep, rid, prog, ci, wrap, wf, loc)
+        return
+    rep.add(rid, "initialiser name:main file and submodule derive it from the source path the same way",
+            elt_norm == norm_sub and "stem" in norm_sub, f"main: {elt_norm} ({how}), submodule: {norm_sub}", loc)
+    srcs = func_params(wrap)[1]
+    popped = any(isinstance(c, ast.Call) and unparse(c.func) == f"{srcs}.pop" and [unparse(a) for a in c.args] == ["0"] for c in walk_no_nested(wrap))
+    rest_names = {st.targets[0].elts[1].value.id for st in walk_no_nested(wrap) if isinstance(st, ast.Assign) and isinstance(st.targets[0], (ast.Tuple, ast.List))
+                  and len(st.targets[0].elts) == 2 and isinstance(st.targets[0].elts[1], ast.Starred) and isinstance(st.targets[0].elts[1].value, ast.Name)
+                  and unparse(st.value) == srcs}
+    it_ok = it_txt in (f"{srcs}[1:]", f"list({srcs}[1:])", f"tuple({srcs}[1:])") or (popped and it_txt == srcs) or it_txt in rest_names
+    rep.add(rid, "main file:one initialiser per additional file, in order", it_ok and "re-ordered" not in how and "filtered" not in how,
+            f"names computed over `{it_txt}` ({how}): one initialiser has to be declared and called for *every* additional file, in the order the files "
+            f"were given - a file that is left out (by its suffix, its content, ...) is still wrapped as a submodule, its initialiser is defined but never "
+            f"called, and its classes are missing from the imported module; pybind11 registration is order-dependent (a base class before the classes "
+            f"derived from it)", f"{ci.mod.rel}:{wrap.lineno}")
+    rep.add(rid, "main file:the submodule list reaches wrap_file", names_e is not None and elt_norm is not None,
+            f"submodules={unparse(names_e) if names_e is not None else None}", f"{ci.mod.rel}:{wrap.lineno}")
+    _submodule_contract_rest(ctx, rep, rid, prog, ci, wrap, wf, loc)
 
 
 def _script_info(ctx, rel: str):
@@ -933,3 +947,57 @@ def rule_build_files_agree(ctx, rep: Report, rid="Y8"):
             and bool(cpp_names) and all(c == "self._wrapper_name()+'.cpp'" for c in cpp_names),
             f"cmake: generated_cpp_file = {m2.group(0) if m2 else None}, --module_name {mod_arg}, --out {out_arg}; python: _wrapper_name returns {rets}, "
             f".cpp names {sorted(set(cpp_names))}", "cmake/MatlabWrap.cmake:1")
+
+
+def _initialisers_by_evaluation(ctx):
+    """(problems, None) when the names of the initialisers can be computed by running the slices of wrap / wrap_file /
+    wrap_submodule they depend on (the analyser's own interpreter) for a sample list of interface files; (None, reason) otherwise."""
+    from .rules_matlab import SampleObj, _PathEval, _Raised, slice_eval
+    prog = ctx.prog
+    ci = prog.cls("PybindWrapper")
+    wrap = prog.method("PybindWrapper", "wrap")
+    sub = prog.method("PybindWrapper", "wrap_submodule")
+    wf = prog.method("PybindWrapper", "wrap_file")
+    methods = dict(ci.methods)
+    srcs = ["dir/main.i", "a/multi.i", "b/geometry.i", "wifi.i", "x/ui.i", "deep/er/basis.i", "io.i", "other/special.h", "UPPER.I", "zz.i"]
+    want = ["multi", "geometry", "wifi", "ui", "basis", "io", "special", "UPPER", "zz"]      # every file, in the order given, named by its stem
+    ps_wrap, ps_wf, ps_sub = func_params(wrap), func_params(wf), func_params(sub)
+    try:
+        main_call = next((c for c in walk_no_nested(wrap) if isinstance(c, ast.Call) and unparse(c.func) == "self.wrap_file"), None)
+        sub_call = next((c for c in walk_no_nested(sub) if isinstance(c, ast.Call) and unparse(c.func) == "self.wrap_file"), None)
+        fmt = next((c for c in walk_no_nested(wf) if isinstance(c, ast.Call) and isinstance(c.func, ast.Attribute) and c.func.attr == "format"
+                    and "module_template" in unparse(c.func.value)), None)
+        if main_call is None or sub_call is None or fmt is None or "submodules" not in ps_wf:
+            return None, "call of wrap_file / module template not found"
+        mb = bind_call(wf, main_call, drop_self=True)
+        sb = bind_call(wf, sub_call, drop_self=True)
+        if "submodules" not in mb or "module_name" not in sb:
+            return None, "the submodule list / module name is not passed by name or position"
+        me = SampleObj(module_name="mod")
+        env_wrap = {ps_wrap[0]: me, ps_wrap[1]: list(srcs)}
+        for p in ps_wrap[2:]:
+            env_wrap[p] = "m"
+        handed = slice_eval(wrap, mb["submodules"], env_wrap, methods=methods, budget=6000)
+        if not isinstance(handed, list):
+            return None, "the submodule argument is not a list on the samples"
+        texts = {}
+        for k in fmt.keywords:
+            if k.arg in ("submodules", "submodules_init"):
+                env_wf = {p: "" for p in ps_wf}
+                env_wf.update({ps_wf[0]: me, "submodules": list(handed), "module_name": "m"})
+                texts[k.arg] = slice_eval(wf, k.value, env_wf, methods=methods, budget=8000)
+        if set(texts) != {"submodules", "submodules_init"} or not all(isinstance(t, str) for t in texts.values()):
+            return None, "the template has no {submodules} / {submodules_init} text"
+        defined = [slice_eval(sub, sb["module_name"], {ps_sub[0]: me, ps_sub[1]: s_}, methods=methods, budget=4000) for s_ in srcs[1:]]
+    except (_PathEval.Unknown, _Raised, AnalysisError, TypeError, KeyError, IndexError) as ex:
+        return None, str(ex)
+    declared = re.findall(r"void\s+(\w+)\s*\(\s*py::module_?\s*&\s*\)\s*;", texts["submodules"])
+    called = re.findall(r"^\s*(\w+)\s*\(\s*\w+\s*\)\s*;", texts["submodules_init"], re.M)
+    probs = []
+    if defined != want:
+        probs.append(f"wrap_submodule defines {defined} for the files {[s_ for s_ in srcs[1:]]}")
+    if declared != defined:
+        probs.append(f"the main file declares {declared}, the additional files define {defined}")
+    if called != defined:
+        probs.append(f"the main file calls {called}, the additional files define {defined}")
+    return probs, None
